@@ -522,7 +522,9 @@ class C07Rules(FoldRules):
                             last_last_assign = i
                         elif r.LAST in an:
                             last_last_assign = -2  # assigned from something else
-            if last_last_assign < 0 or last_last_assign < last_key_assign:
+            if last_last_assign < 0 or last_last_assign < last_key_assign or last_key_assign < 0:
+                # (also: the resolution must be computed *in this iteration* -- a path that assigns nothing to it carries the previous
+                # citation's resolution over, and the citation is filed under a case it has nothing to do with)
                 ok = False
                 bad_exit = p.exit_node or r.FOLD
         ctx.ob("R-C07-4a", f"{self.q}/{r.LAST}:every-iteration", ok and n_paths > 0,
@@ -742,6 +744,10 @@ def run(ctx: Ctx):
     ctx.guard(R.r2b_shortform_selects_among_candidates)
     ctx.guard(R.r4_id_discipline)
     ctx.guard(R.dynamic_features_absent)
+    # the id. resolver and the value hash recognise a placeholder page by `page is None`; that is only as good as the normalisation that turns every
+    # placeholder spelling the page pattern accepts into None (shared with C16)
+    from .c16 import rule_placeholder_normalisation
+    ctx.guard(rule_placeholder_normalisation, ctx, "R-C07-6")
     ctx.floor("R-C07-1", 3)
     ctx.floor("R-C07-2", 10)
     ctx.floor("R-C07-4a", 1)
